@@ -15,11 +15,23 @@ import (
 
 var vtGaps = []int{0, 0, 1, 1, 10, 100, 100, 1000, 2500, 4999}
 
+// vtID: the i-th id of a case. Any uint32 the caller has not used yet is a valid broker id, not only
+// the ones NextId hands out: mostly 1000+i, sometimes a value at the edges of the range (0 included).
+// Small non-zero ids are left to the library itself (Dispense allocates 1, 2, ... on the same broker).
+var vtEdgeIDs = []uint32{0, 1 << 16, 1 << 31, 0xFFFFFFFF, 0xFFFFFFFE, 1 << 24, 0x80000001, 0x7FFFFFFF}
+
+func vtID(t *rapid.T, i int) uint32 {
+	if pct(t, "edgeid", 25) {
+		return vtEdgeIDs[i%len(vtEdgeIDs)]
+	}
+	return uint32(1000 + i)
+}
+
 func c06Gen(t *rapid.T) any {
 	c := &vtCase{}
 	k := 1 + uniform(t, "k", 8)
 	for i := 0; i < k; i++ {
-		op := vtOp{Kind: "pair", ID: uint32(1000 + i), HostDials: rapid.Bool().Draw(t, "hostdials")}
+		op := vtOp{Kind: "pair", ID: vtID(t, i), HostDials: rapid.Bool().Draw(t, "hostdials")}
 		base := uniform(t, "base", 50)
 		gap := oneOf(t, "gap", vtGaps)
 		if rapid.Bool().Draw(t, "dialfirst") {
@@ -110,7 +122,7 @@ func c09Gen(t *rapid.T) any {
 	c := &vtCase{Fresh: true}
 	n := 1 + uniform(t, "n", 6)
 	for i := 0; i < n; i++ {
-		op := vtOp{ID: uint32(1000 + i), HostDials: rapid.Bool().Draw(t, "hostdials")}
+		op := vtOp{ID: vtID(t, i), HostDials: rapid.Bool().Draw(t, "hostdials")}
 		base := uniform(t, "base", 2000)
 		switch weighted(t, "kind", 22, 18, 30, 18, 12) {
 		case 0:
@@ -174,7 +186,7 @@ func vtHook(name string) {
 
 var propC06VT = register(&Prop{
 	ID: "C06", Name: "C06VT", Gen: c06Gen, New: func() any { return &vtCase{} }, Run: c06Run,
-	Rule: "virtual time (testing/synctest, go1.26.8): one net/rpc host/plugin pair over net.Pipe per case; rapid draws 1-8 accept/dial pairs with distinct ids, either side dialling, accept-first or dial-first, gaps from {0,1,10,100,1000,2500,4999} ms (all inside the 5 s window), payloads from 0 B to 1 MiB each way, " +
+	Rule: "virtual time (testing/synctest, go1.26.8): one net/rpc host/plugin pair over net.Pipe per case; rapid draws 1-8 accept/dial pairs with distinct ids (1000+i or, a quarter of the time, edge values of the uint32 range incl. 0), either side dialling, accept-first or dial-first, gaps from {0,1,10,100,1000,2500,4999} ms (all inside the 5 s window), payloads from 0 B to 1 MiB each way, " +
 		"and 0-6 concurrent Dispense calls of distinctly named plugins; everything runs concurrently. Oracle: each dialer sends (id, nonce)+payload and each acceptor must read exactly its own id's token and bytes and vice versa (complete, in order), every accept and dial inside the window succeeds, each dispensed client is answered by the server object of the name it asked for. " +
 		"Non-trivial: >= 2 ids outstanding in both directions, or a dial-first pair, or a gap >= 1 s.",
 	Assumptions: []string{"virtual time: the broker's 5 s timers and all offsets are exact; yamux keeps a global timer pool, so one bubble spans the whole rapid run"},
